@@ -814,6 +814,17 @@ PROPS["C05"] = dict(
           "the DataSetReader), the LazyDataSetReader and dicom_object::from_reader: a value or an error, never a panic",
           bound="145 854 inputs (native enumeration of the compiled code; not a deductive result; says nothing about inputs outside the family)",
           fns=[("object/src/mem.rs", "read_dataset_with_ts")]),
+        N("C05.hostile2", _WR2 % "c05_hostile2",
+          "on the compiled code, further entry points named by the statement: DICOM JSON deserialisation (every truncation and every "
+          "single-character replacement of the JSON text of two objects, plus values of the wrong JSON type under 13 VR codes and malformed "
+          "keys) through dicom_json::from_str; dumping (dicom_dump) and JSON serialisation of every object read from a single-byte mutation "
+          "of a small data set; pixel data decoding (dicom_pixeldata decode_pixel_data / decode_pixel_data_frame) of native and RLE images "
+          "whose image attributes are replaced one at a time by hostile values, whose pixel data is cut short or whose RLE fragments are "
+          "malformed, and of garbage fragments under every encapsulated transfer syntax with a decoder in this build; the collector reader (file "
+          "meta, data set up to the pixel data, offset table, fragments, rest) on every truncation and single-byte mutation of two files: a value "
+          "or an error, never a panic",
+          bound="18 946 inputs (native enumeration of the compiled code; not a deductive result; says nothing about inputs outside the family)",
+          fns=[("transfer-syntax-registry/src/adapters/rle_lossless.rs", "read_rle_header"), ("object/src/collector.rs", "set_parser_with_ts")], timeout=1800),
         N("C05.hostile_full", _WR2 % "c05_hostile",
           "on the compiled code, hostile inputs through the reading entry points the verifiers cannot process: every string of up to 6 "
           "characters over a 9-character alphabet (digits, separators, a multi-byte character) and single-character mutations of valid "
@@ -826,9 +837,9 @@ PROPS["C05"] = dict(
     assumptions=["panic-freedom (index, slice, overflow, unwrap, unreachable!) is an automatic obligation of both engines in every unit of every property",
                  "inputs shorter than a tag (0-3 bytes) are not covered by the header unit (CBMC budget)"],
     uncovered=["file opening and byte-source reading, file meta group reading, eager / lazy data set readers: deductively uncovered (only the native "
-               "unit C05.hostile exercises them)", "collector reader",
-               "DICOM JSON deserialisation", "PDU body decoding (per-type, after the framing head)", "pixel data decoders (JPEG, RLE on malformed fragments, deflate)",
-               "dump", "attribute selector, date-time and range text parsers", "hang-freedom (termination) in general"],
+               "units C05.hostile / C05.hostile2 exercise them)",
+               "DICOM JSON deserialisation, PDU body decoding, pixel data decoders, dump: deductively uncovered (only the native units)",
+               "attribute selector and range text parsers on hostile strings", "hang-freedom (termination) in general"],
 )
 
 # ----------------------------------------------------------------------- C31
